@@ -105,7 +105,8 @@ JunkAny   == [k |-> "junkany", adm |-> {}]     \* any number of any replies
 
 StoreVerbs == {"set", "add", "replace", "cas", "append", "prepend"}
 SetVerbs   == {"set", "add", "replace", "cas"}
-NoRef      == [st |-> "none", vid |-> "", flag |-> 0, ver |-> 0, len |-> 0, isnum |-> FALSE, num |-> 0]
+\* disk: the record was written before the last restart (a read takes it from the data file)
+NoRef      == [st |-> "none", vid |-> "", flag |-> 0, ver |-> 0, len |-> 0, isnum |-> FALSE, num |-> 0, disk |-> FALSE]
 WildRef    == [NoRef EXCEPT !.st = "wild"]
 
 ValidKeyCls == {"plain", "unserved"}
@@ -122,8 +123,8 @@ Closing(exp, s)    == Out(exp, TRUE, s, FALSE, <<>>, "", FALSE)
 Ending(o)          == [o EXCEPT !.ends = TRUE]     \* the client's EOF follows: nothing after this command
 
 \* capacity accounted in GetData for a value read by bkt.get: write-buffer copy or data-file read
-GetCap(s, klen, len) == IF s.cf.disk THEN klen + len ELSE IF len > s.cf.bodyc THEN len ELSE 0
-GetInC(s, klen, len) == IF s.cf.disk THEN klen + len > s.cf.bodyc ELSE len > s.cf.bodyc
+GetCap(s, klen, x) == IF x.disk THEN klen + x.len ELSE IF x.len > s.cf.bodyc THEN x.len ELSE 0
+GetInC(s, klen, x) == IF x.disk THEN klen + x.len > s.cf.bodyc ELSE x.len > s.cf.bodyc
 MaybeCompressed(klen, len) == 24 + klen + len > 256
 
 \* ---- reading one key (StorageClient.Get) -------------------------------------------------
@@ -175,7 +176,7 @@ GetOutcomes(c, s, F) ==
       dupseq == SetToSeq0(dups)
       dupbufs(fate) == [i \in 1..Len(dupseq) |->
                           LET x == s.ref[K[dupseq[i]].name] IN
-                          Buf("get", GetCap(s, K[dupseq[i]].klen, x.len), GetInC(s, K[dupseq[i]].klen, x.len), fate)]
+                          Buf("get", GetCap(s, K[dupseq[i]].klen, x), GetInC(s, K[dupseq[i]].klen, x), fate)]
       dupwild == \E j \in dups : MaybeCompressed(K[j].klen, s.ref[K[j].name].len)
   IN
   IF long THEN {tokd(Plain(<<One({PErr})>>, s))}
@@ -289,7 +290,7 @@ StoreOutcomes(c, s, F, nextgot) ==
        \* the server-reserved compression bit is stored verbatim: every later read of the key panics
        IF "F10-resvflag" \in F
          THEN {with(Plain(nr({Pt("STORED")}), [s EXCEPT !.ref[kr.name] = [NoRef EXCEPT !.st = "poison", !.ver = Abs(x.ver) + 1],
-                                                         !.backlog = s.backlog \/ n > 0]), sbuf("wbuf"), "")}
+                                                         !.backlog = s.backlog \/ n > 0]), sbuf("wbuf"), "F10-resvflag")}
          ELSE {with(Plain(nr({Pt("STORED"), Pt("NOT_STORED"), PErr}), [s EXCEPT !.ref[kr.name] = WildRef, !.backlog = TRUE]), sbuf("wbuf"), "")}
   ELSE IF n = 0 /\ 24 + kr.klen > 256 /\ ~c.ccomp /\ "F10-emptylong" \in F THEN
        \* an EMPTY value whose record is larger than 256 bytes (key > 232 bytes) goes to TryCompress, and
@@ -301,7 +302,7 @@ StoreOutcomes(c, s, F, nextgot) ==
        LET rev    == IF c.nf = "exptime" /\ c.nc = "rev" THEN c.rev ELSE 0
            accept == rev = 0 \/ rev > Abs(x.ver) \/ x.st = "wild"
            ver2   == IF x.st = "wild" THEN 0 ELSE IF rev = 0 THEN Abs(x.ver) + 1 ELSE rev
-           r2     == [st |-> "live", vid |-> c.vid, flag |-> c.flag, ver |-> ver2, len |-> n, isnum |-> FALSE, num |-> 0]
+           r2     == [st |-> "live", vid |-> c.vid, flag |-> c.flag, ver |-> ver2, len |-> n, isnum |-> FALSE, num |-> 0, disk |-> FALSE]
        IN IF accept
             THEN {with(Plain(nr({Pt("STORED")}), [s EXCEPT !.ref[kr.name] = r2, !.backlog = s.backlog \/ n > 0]), sbuf("wbuf"), "")}
             ELSE {with(Plain(nr({Pt("STORED")}), s), sbuf("freed"), "")}
@@ -333,8 +334,9 @@ IncrOutcomes(c, s, F) ==
       nr(pats) == IF c.noreply THEN <<>> ELSE <<One(pats)>>
       tokd(o) == [o EXCEPT !.tok = TRUE]
       cnt(fate) == Buf("cnt", 0, FALSE, fate)
-      gbuf(fate) == Buf("get", GetCap(s, kr.klen, x.len), GetInC(s, kr.klen, x.len), fate)
-      numref(v, ver) == [st |-> "live", vid |-> "n" \o ToString(v), flag |-> FlagIncr, ver |-> ver, len |-> Digits(v), isnum |-> TRUE, num |-> v]
+      gbuf(fate) == Buf("get", GetCap(s, kr.klen, x), GetInC(s, kr.klen, x), fate)
+      numref(v, ver) == [st |-> "live", vid |-> "n" \o ToString(v), flag |-> FlagIncr, ver |-> ver, len |-> Digits(v), isnum |-> TRUE, num |-> v,
+                         disk |-> FALSE]
       \* F2: the SetData count taken by the parser is not given back
       f2(o) == IF "F2" \in F THEN [o EXCEPT !.bufs = <<cnt("leak")>>, !.sig = "F2"] ELSE [o EXCEPT !.bufs = <<cnt("freed")>>]
   IN
@@ -506,7 +508,8 @@ PresentFrom(s, cmds, i, acc) ==
   ELSE LET c  == cmds[i]
            os == Outcomes(c, s, AllFindings, NextGot(cmds, i))
            o  == CHOOSE x \in os : TRUE
-       IN PresentFrom(o.s, cmds, i + 1, acc \cup SigOf(c, s))
+       IN IF o.closes \/ o.ends THEN [s |-> o.s, sigs |-> acc \cup SigOf(c, s)]
+          ELSE PresentFrom(o.s, cmds, i + 1, acc \cup SigOf(c, s))
 
 -----------------------------------------------------------------------------
 (* Part 4: the connection machine (ServeOnce at the grain of its stages)    *)
